@@ -30,7 +30,7 @@ for variant, expect in EXPECT.items():
     print("Optimiser variant %-16s -> %s %s" % (variant, got or ("evaluation error" if tlc_err else "no violation"), "ok" if ok else "UNEXPECTED"))
     bad += 0 if ok else 1
 PEXP = {"spec": [], "shallowClone": ["Ownership", "InputUnchanged", "Deterministic"], "firstMax": ["ReduceTreeIndependent", "BestWritten"],
-        "unseeded": ["Deterministic"]}
+        "unseeded": ["Deterministic"], "noTruncate": ["FileIsBest"]}
 for variant, expect in PEXP.items():
     r = vp.run_tlc("Pipeline", pipe_checks.mc_cfg(3, 2, 1, variant=variant, live=(variant == "spec"), M=2), "selftest_pipe_" + variant,
                    workers=4, timeout=1200, deque=False)
